@@ -400,6 +400,17 @@ def derived_priors(ctx):
     standalone, inside a scatterer and inside a model -- reload with the same function object, the same tree and the same text"""
     import operator
     rng = ctx.rng
+    # deterministic probe (known finding): a transformation that is a NumPy function but not a ufunc (np.mean, np.clip, np.linalg.norm)
+    for fname, fn in (("np.mean", np.mean), ("np.linalg.norm", np.linalg.norm)):
+        ctx.tried("non-ufunc-transformation", (fname,))
+        tpn = TransformedPrior(fn, [Uniform(0.0, 1.0), Uniform(2.0, 3.0)])
+        r = impl_call(lambda: cycle(tpn, 1)[0])
+        if isinstance(r, tuple) and len(r) == 2 and r[0] == "err":
+            ctx.violation("C15:non-ufunc-transformation:unsaveable", "TransformedPrior(%s, [p, q]) cannot be written: save raises %s" % (fname, r[1]), dict(kind="non-ufunc", function=fname))
+            break
+        elif not (isinstance(r, TransformedPrior) and r.transformation is fn):
+            ctx.violation("C15:non-ufunc-transformation", "TransformedPrior(%s, [p, q]) reloads with another transformation" % fname, dict(kind="non-ufunc", function=fname))
+            break
     ufs = sorted({u for u in vars(np).values() if isinstance(u, np.ufunc) and u.nin in (1, 2) and u.nout == 1 and
                   any(t.startswith("d" * u.nin + "->") for t in u.types)}, key=lambda u: u.__name__)
     base = lambda j: Uniform(0.4 + 0.01 * j, 0.9 + 0.01 * j, guess=0.6 + 0.01 * j)
